@@ -53,6 +53,20 @@ def run(prop, tier, replay=None):
             linp = os.path.join(work, "lin_%d.ndjson" % i)
             spans = lintrace.write_histories(linp, [r["events"] for r in recs])
             n, hw, tl = lintrace.check(work, linp, str(i))
+            # concurrent statistics tallies (C20) from the same runs
+            stp = os.path.join(work, "st_%d.ndjson" % i)
+            with open(stp, "w") as f:
+                for r in recs:
+                    f.write(json.dumps({k: r[k] for k in ("sc", "lookups", "loads", "nover", "nexp", "st", "stmid")}) + "\n")
+            dvp = os.path.join(work, "st_%d.dev.json" % i)
+            sr = vlib.run_tlc(work, "StatsHist", os.path.join(vlib.SPEC, "StatsHist.cfg"), workers=1, timeout=600, heap="2g",
+                              env_extra={"VERIF_TRACE": stp, "VERIF_DEVOUT": dvp})
+            if not vlib.tlc_ok(sr) or not os.path.exists(dvp):
+                raise vlib.Broken("StatsHist did not complete:\n" + sr["out"][-2000:])
+            with open(dvp) as f:
+                sd = json.load(f)
+            for r in recs:
+                r["_stats_devs"] = [x for x in sd["devs"]]
             return part, recs, spans, n, hw, tl
 
         for fu in [ex.submit(one, i, p) for i, p in enumerate(shards)]:
@@ -65,10 +79,15 @@ def run(prop, tier, replay=None):
             if recs and len(cov["samples"]) < 2:
                 cov["samples"].append({"scenario": recs[0]["sc"], "events": recs[0]["events"][:16]})
             for k, r in enumerate(recs):
-                if r["diag"]:
+                if r["diag"] and prop == "C02":
                     path = vlib.save_replay(prop, "c02-%s-%d" % (part[k]["policy"], part[k]["seed"]), [part[k]])
                     violations.append(("C02.abnormal_end", r["diag"], path))
-            if hw <= n:
+            if recs and prop == "C20":
+                for x in recs[0]["_stats_devs"]:
+                    sc = part[x["rec"] - 1]
+                    path = vlib.save_replay(prop, "c20-%s-%d" % (sc["policy"], sc["seed"]), [sc])
+                    violations.append((x["pred"], x["detail"], path))
+            if hw <= n and prop == "C02":
                 bad = next((k for k, (a, b) in enumerate(spans) if a <= hw <= b), len(spans) - 1)
                 cov["not_linearizable"] += 1
                 path = vlib.save_replay(prop, "c02-%s-%d" % (part[bad]["policy"], part[bad]["seed"]), [part[bad]])
@@ -80,6 +99,8 @@ def run(prop, tier, replay=None):
         cov["samples"] = [{"note": "replay"}]
     cov["explanation"] = ("states/transitions: states TLC visited while searching linearisations (LinTrace.tla, one run per shard of histories); "
                           "traces_validated_against_impl: concurrent histories recorded from the real cache")
+    if prop == "C20":
+        return cov, violations       # concurrent half of C20: the caller merges it with the sequential half
     vlib.write_evidence(prop, tier, "model_checking", cov, time.time() - t0, violations=len(violations),
                         assumptions=["the clock is frozen during a history", "2-6 clients, <= 8 checked keys, unique values per write",
                                      "loader-backed Get: loaders always succeed; a missed Get is modelled with two linearisation points (miss, install)"])
